@@ -344,7 +344,7 @@ func (cx *c06Ctx) judge(a *c06Acc, ch, in string, base c06Base, p *vfProxy, resp
 	kept := false
 	bad := false
 	for _, o := range outs {
-		if (o.Where == "Location" || o.Where == "hidden rd") && o.Val != "/" {
+		if (o.Where == "Location" || o.Where == "hidden rd") && o.Val != "/" && !strings.HasSuffix(o.Val, c06XFFallback) {
 			kept = true
 		}
 		v, u := c06Verdict(o.Val, base, cx.WL.Entries)
@@ -443,6 +443,11 @@ func (cx *c06Ctx) finishLogin(a *c06Acc, ch, in string, base c06Base, p *vfProxy
 	a.count(fmt.Sprintf("callback_status_%d", resp.Code), 1)
 	if resp.Code == 302 {
 		a.count("logins_completed", 1)
+	} else {
+		a.count(fmt.Sprintf("callback_not_302_%s_%d", ch, resp.Code), 1)
+		if len(a.Samples) < 6 {
+			a.Samples = append(a.Samples, c06Case{Channel: ch, WL: cx.WL.Kind, Input: c06Quote(in), Status: resp.Code, Note: "callback did not complete the login: " + vfTrunc(vfErrText(resp.Body), 200), Requests: c06ReqStrings([]*vfReq{startReq, cb})})
+		}
 	}
 	cx.judge(a, ch, in, base, p, resp, startReq, cb)
 }
@@ -506,6 +511,7 @@ func (cx *c06Ctx) editedCallback(a *c06Acc, ch, in string, p *vfProxy, host stri
 	if resp.Code == 302 {
 		a.count("logins_completed", 1)
 	} else {
+		a.count(fmt.Sprintf("callback_not_302_%s_%d", ch, resp.Code), 1)
 		*st = nil
 	}
 	cx.judge(a, ch, in, cx.BaseA, p, resp, cb)
@@ -523,6 +529,19 @@ func c06ValidTarget(s string) bool {
 	}
 	for i := 0; i < len(s); i++ {
 		if s[i] <= 0x20 || s[i] == 0x7f {
+			return false
+		}
+	}
+	return true
+}
+
+// with rd delivered next to X-Forwarded-* headers, the forwarded URI is what the proxy falls back to (not "/")
+const c06XFFallback = "/app/page?x=1"
+
+// c06HeaderDeliverable: a header value cannot carry CR, LF, NUL or other control characters (they would re-frame the request)
+func c06HeaderDeliverable(s string) bool {
+	for i := 0; i < len(s); i++ {
+		if (s[i] < 0x20 && s[i] != '\t') || s[i] == 0x7f {
 			return false
 		}
 	}
@@ -570,6 +589,13 @@ func (cx *c06Ctx) drive(a *c06Acc, ch, in string, st *c06State) (bool, bool) {
 		return false, true
 	}
 	switch ch {
+	case "so-xarr", "start-xarr", "xf-so", "xf-start":
+		if !c06HeaderDeliverable(in) {
+			a.count("undeliverable_"+ch, 1)
+			return false, false
+		}
+	}
+	switch ch {
 	case "so-rd":
 		return simple(cx.H, cx.BaseA, vfGET("/oauth2/sign_out?rd="+esc))
 	case "so-xarr":
@@ -598,7 +624,7 @@ func (cx *c06Ctx) drive(a *c06Acc, ch, in string, st *c06State) (bool, bool) {
 		case "xf-so":
 			return simple(cx.B, base, vfGET("/oauth2/sign_out", hdr...))
 		case "xf-so-rd":
-			hdr[5] = "/app/page?x=1"
+			hdr[5] = c06XFFallback
 			return simple(cx.B, base, vfGET("/oauth2/sign_out?rd="+esc, hdr...))
 		default:
 			return login(cx.B, base, vfGET("/oauth2/start", hdr...), hdr...)
